@@ -472,6 +472,15 @@ def dump_cases():
             else:
                 want = "(set-logic QF_AUFBV)\nQUERY\n(check-sat)\n(get-model)\n"
             ctx.oblige("file-text-structure", z3.BoolVal(f.text == want), info={"got": str(f.text)[:300]})
+            if cache and not stale:
+                # the text depends on the CONTENT of the query alone: a later query whose id list happens to live at the address of an earlier,
+                # reclaimed one (here: the same list object with new content) gets its own names
+                q.assertions[:] = ["9"]
+                f2 = RecFile()
+                pc.dump_file = f2
+                interp.call(hsolve.dump, [pc], {})
+                want2 = "(set-option :produce-unsat-cores true)\n(set-logic QF_AUFBV)\nQUERY\n(assert (! |9| :named <9>))\n(check-sat)\n(get-model)\n(get-unsat-core)\n"
+                ctx.oblige("file-text-depends-on-the-query-content-only (nothing is remembered from an earlier query at the same address)", z3.BoolVal(f2.text == want2), info={"got": str(f2.text)[:300]})
 
         out.append(Case(f"{PROP}/solve.dump", f"cache={cache}" + (",refined" if refined else "") + (",file-exists" if stale else ""), harness, replay=replay_script("stale_query_file.py", "a query file of the same name already exists") if stale else replay_dump_refined, sources=("halmos.solve:dump",)))
     return out
@@ -514,10 +523,16 @@ def refine_ctx_cases():
         ctx = interp.ctx
         sentinel = hs.SMTQuery("REFINED", ["1"])
         interp.contracts["halmos.solve:refine"] = lambda i, a, k: sentinel
-        pc = hsolve.PathContext(args=config(), path_id=3, solving_ctx=None, query=hs.SMTQuery("Q", ["1"]))
+        import tempfile
+
+        from pathlib import Path as _P
+
+        sc = hsolve.SolvingContext(dump_dir=_P(tempfile.mkdtemp()))
+        pc = hsolve.PathContext(args=config(), path_id=3, solving_ctx=sc, query=hs.SMTQuery("Q", ["1"]))
         r = interp.call(hsolve.PathContext.refine, [pc], {})
         ok = r.query is sentinel and r.is_refined is True and r.path_id == 3 and r.args is pc.args
         ctx.oblige("refined-context-carries-the-refined-query", z3.BoolVal(ok))
+        ctx.oblige("the refined query is solved in the SAME solving context (dump directory, unsat cores, and the executor that early exit and the signal handler shut down)", z3.BoolVal(r.solving_ctx is sc), info={"same": r.solving_ctx is sc})
 
     return [Case(f"{PROP}/solve.PathContext.refine", "ctx", harness, sources=("halmos.solve:PathContext.refine",))]
 
